@@ -466,8 +466,30 @@ def borrow_programs(c):
 BORROW_CODES = {"E0499", "E0502", "E0505", "E0506", "E0597", "E0382", "E0716", "E0521", "E0515", "E0503", "E0599", "E0713"}
 BORROW_CFG = "INIT Init\nNEXT Next\nINVARIANT EmitInv RuleSanity\nCHECK_DEADLOCK FALSE\n"
 
+# every public method of AnyVec / AnyVecTyped known when the loan table (AnyVecBorrow.tla) and the templates were written: those that
+# hand out something borrowed are rows of the table; a NEW public method makes the table incomplete, which must be loud
+KNOWN_METHODS = set("""as_bytes as_bytes_mut as_mut_ptr as_mut_slice as_ptr as_slice at at_mut capacity clear clone_empty clone_empty_in
+downcast_mut downcast_mut_unchecked downcast_ref downcast_ref_unchecked drain element_clone element_drop element_layout element_typeid
+from_raw_parts get get_mut get_unchecked get_unchecked_mut insert insert_unchecked into_raw_parts is_empty iter iter_mut len new new_in pop
+push push_unchecked remove reserve reserve_exact set_len shrink_to shrink_to_fit spare_bytes_mut spare_capacity_mut splice swap_remove
+with_capacity with_capacity_in""".split())
+def scan_methods():
+    repo = os.environ.get("VERIF_REPO", "/repo")
+    found = set()
+    for f in ("src/any_vec.rs", "src/any_vec_typed.rs"):
+        try:
+            txt = open(os.path.join(repo, f)).read()
+        except FileNotFoundError:
+            continue
+        found |= set(re.findall(r"pub (?:unsafe )?fn ([a-z_0-9]+)", txt))
+    return found
+
 def run_c16(tier, seed):
     t0 = time.time()
+    new_methods = scan_methods() - KNOWN_METHODS
+    if new_methods:
+        raise ToolError("the C16 loan table does not know these public methods of AnyVec/AnyVecTyped: %s - add them to AnyVecBorrow.tla "
+                        "(and probes.B_METHODS if they hand out borrows) before this check can be trusted" % sorted(new_methods))
     cases, stats = tlc_cases("AnyVecBorrow", BORROW_CFG, "borrow")
     rlib, deps = build_rlib(True)
     if rlib is None:
